@@ -448,3 +448,60 @@ Print Assumptions c19_noindex_merge_unequal_refuted. Print Assumptions c19_cni_c
 Print Assumptions c19_hv_history. Print Assumptions c19_cri_concurrent_then_lookup. Print Assumptions c19_cfi_concurrent_mixed.
 Print Assumptions c19_clat_concurrent_then_lookup. Print Assumptions c19_cni_concurrent_then_lookup.
 Print Assumptions c19_cri_stratum_protocol. Print Assumptions c19_interleaving_exists. Print Assumptions c19_oracles_exist. Print Assumptions c19_empty_indices. Print Assumptions c19_example_serial. Print Assumptions c19_example_concurrent.
+
+(* ================= the index model types UNDER the generated code =================
+   Engine/ConcreteEval.v is the per-index engine (Engine/IndexedEval.v, C01 / C13) with every index field a VALUE of the model
+   types of this file's subject (hvec = RelIndexType1, fmap = RelFullIndexType, the Combined view) and every step a call of the
+   modelled operation the generated code calls (index_insert, contains_key, insert_if_not_present, merge_delta_to_total_new_to_delta
+   with move_index_contents and its swap on size, index_get, iter_all, len_estimate).  It simulates IndexedEval, which refines
+   Engine/Eval.v, the subject of the least-model theorems: the chain code-level index types -> abstract engine is closed. *)
+From Coq Require Import List ZArith Bool Permutation.
+From AV Require Import Index.IndexModel.
+From AV Require Import Index.IndexRefine.
+From AV Require Import Engine.Core Engine.Sem Engine.Eval Engine.Validate Engine.Naive Engine.Interface Engine.Main Engine.Vocab Engine.Examples.
+From AV Require Import Engine.InterfaceAgg Engine.MainAgg.
+From AV Require Import Engine.IndexedEval Engine.IndexedSim Engine.IndexedRefine.
+From AV Require Import Engine.ConcreteEval Engine.ConcreteBase Engine.ConcreteRefine.
+Import ListNotations.
+Open Scope Z_scope.
+
+(* the engine whose every index field is a C19 model value simulates the engine with per-index entry lists: same termination,
+   rows equal up to Permutation, every index field abstracts (hv_abs / key set) to the entry list of its index up to Permutation *)
+Theorem c19_engine_on_model_types_refines_indexed_engine :
+  forall (sh : forall A : Type, list A -> list A), permuting sh ->
+  forall (enc : list Z -> Z) (dec : Z -> list Z), (forall l, dec (enc l) = l) ->
+  forall (I : interp), agg_perm_invariant I ->
+  forall swap, swap_perm_invariant swap ->
+  forall decls, forallb (decl_ok decls) decls = true ->
+  forall fuel pl c a, plan_idx_ok decls pl = true ->
+  Permutation (crows c) (irows a) -> Forall2 Rshape (cstored c) (istored a) -> pshape (istored a) = decls ->
+  (forall f, In f (irows a) -> fact_idx_ok decls f = true) ->
+  orel (Rst enc decls) (run_plan_concrete sh enc dec I swap fuel pl c) (run_plan_idx I swap fuel pl a).
+Proof. exact run_plan_concrete_sim. Qed.
+
+(* what the relation says about one stored index field: read through iter_all (what the DS / PROG harness does), it lists exactly the
+   entries of the index of IndexedEval, up to Permutation *)
+Theorem c19_index_field_entries :
+  forall (sh : forall A : Type, list A -> list A), permuting sh ->
+  forall (enc : list Z -> Z) (dec : Z -> list Z), (forall l, dec (enc l) = l) ->
+  forall decls, forallb (decl_ok decls) decls = true ->
+  forall r a c x es, In (r, a, c) decls -> Rix enc a c x es -> Permutation (cix_entries sh dec a c x) es.
+Proof. exact entries_sim. Qed.
+
+(* the row order is NOT preserved (so the statement above cannot be an equality of lists) *)
+Theorem c19_engine_on_model_types_row_order_refuted : exists c a,
+  run_plan_concrete sh_rev enc_list dec_list std_interp std_swap 20 tc_plan (c_init_state tc_decls tc_input) = Some c
+  /\ run_plan_idx std_interp std_swap 20 tc_plan (init_istate tc_decls tc_input) = Some a
+  /\ crows c <> irows a.
+Proof. exact tc_concrete_rows_differ_refuted. Qed.
+
+(* PARTIAL: the generated code decides the order of a reorderable simple join by `len_estimate() <= len_estimate()` on the two
+   indices (ConcreteEval.real_swap_dec, computed by hv_len / fm_len / comb_len); the theorems above are for a decision that is a
+   function of the rows (the oracle of Eval.v).  Proved: where no rule variant is reorderable the two engines are the same function.
+   Missing: reorderable variants under real_swap_dec (needs the symmetry of the simple join at the level of IndexedEval). *)
+Theorem c19_engine_real_len_estimate_partial :
+  forall sh enc dec I swap fuel pl st, no_reorder pl ->
+  run_plan_concrete_real sh enc dec I fuel pl st = run_plan_concrete sh enc dec I swap fuel pl st.
+Proof. exact run_plan_concrete_real_eq. Qed.
+Print Assumptions c19_engine_on_model_types_refines_indexed_engine. Print Assumptions c19_index_field_entries.
+Print Assumptions c19_engine_on_model_types_row_order_refuted. Print Assumptions c19_engine_real_len_estimate_partial.
